@@ -106,6 +106,10 @@ class Stmt:
         # This matches legacy codegen and ensures proper semantics for cases
         # like `c[0] = c.pop()` where RHS modifies array length.
         src = Expr(node.value, self.ctx).lower()
+        if src.location is not None and src.typ._is_prim_word:
+            # read a word-sized right-hand side now: evaluating the target
+            # (e.g. a subscript containing a call) must not change it
+            src = VyperValue.from_stack_op(self.ctx.unwrap(src), src.typ)
         dst_ptr = self._get_target_ptr(target)
         self._assign_value(dst_ptr, src, target_typ, src_node=node.value)
 
